@@ -39,7 +39,7 @@ def plan(tier):
 
     if tier == "quick":
         return dict(shards=16, examples=480, time_budget_s=500, min_nontrivial=60, env=env, shrink_cap_s=90)
-    return dict(shards=16, examples=8000, time_budget_s=3400, min_nontrivial=1000, env=env)
+    return dict(shards=16, examples=8000, time_budget_s=3400, min_nontrivial=400, env=env)
 
 
 def strategy(tier, shard):
